@@ -28,7 +28,8 @@ git -C $WT diff HEAD > $OUT/patch.diff
 echo "build rc=$BUILD" | tee -a $LOG
 TESTS=skipped
 if [ $BUILD = 0 ]; then
-  ( cd $WT/_b && ctest -j6 --timeout 900 --repeat until-pass:3 -R "$(cat /tmp/seed/stable_regex.txt)" 2>&1 | tail -8 ) >>$LOG 2>&1
+  # private network namespace: other jobs on this box run the same tests and would collide on their fixed TCP ports
+  ( cd $WT/_b && unshare -rn sh -c 'ip link set lo up; ctest -j6 --timeout 900 --repeat until-pass:3 -R "$(cat /tmp/seed/stable_regex.txt)"' 2>&1 | tail -8 ) >>$LOG 2>&1
   TESTS=$(grep -E "tests passed" $LOG | tail -1)
 fi
 echo "tests: $TESTS" | tee -a $LOG
